@@ -59,10 +59,12 @@ Definition nodata_true (z : zone) (q : rname) (qtype : N) : Prop :=
 Definition insecure_delegation (z : zone) (d : rname) : Prop :=
   exists tys, In (d, tys) (z_nodes z) /\ In T_NS tys /\ ~ In T_DS tys /\ ~ In T_SOA tys.
 
-(* well-formed zone: every owner at or below the apex, nothing owned below a cut *)
+(* well-formed zone: every owner at or below the apex, one type set per owner,
+   nothing owned below a cut *)
 Definition zone_wf (z : zone) : Prop :=
   (forall n, owner z n -> is_prefix (z_apex z) n) /\
   owner z (z_apex z) /\
+  (forall n t1 t2, In (n, t1) (z_nodes z) -> In (n, t2) (z_nodes z) -> t1 = t2) /\
   (forall d tys w, In (d, tys) (z_nodes z) -> cut_types tys -> owner z w -> ~ is_strict_prefix d w).
 
 (* ---- the genuine NSEC chain, relationally: o -> nx is a link iff both are
@@ -122,9 +124,15 @@ Definition insecure_delegation_b (z : zone) (d : rname) : bool :=
   existsb (fun nd => rname_eqb (fst nd) d && has_type (snd nd) T_NS && negb (has_type (snd nd) T_DS)
                      && negb (has_type (snd nd) T_SOA)) (z_nodes z).
 
+Fixpoint keys_unique (l : list (rname * list N)) : bool :=
+  match l with
+  | [] => true
+  | nd :: t => negb (existsb (fun x => rname_eqb (fst x) (fst nd)) t) && keys_unique t
+  end.
 Definition zone_wf_b (z : zone) : bool :=
   forallb (fun nd => prefix_b (z_apex z) (fst nd)) (z_nodes z) &&
   owner_b z (z_apex z) &&
+  keys_unique (z_nodes z) &&
   forallb (fun d => negb (cut_types_b (snd d)) ||
                     forallb (fun w => negb (strict_prefix_b (fst d) (fst w))) (z_nodes z)) (z_nodes z).
 
